@@ -105,6 +105,10 @@ func NewDispatcher(option DispatcherOption) *dispatcher {
 	if size < 1024 {
 		zoneSize = 8
 	}
+	// 保证每个zone至少可以保存一个缓存，避免lru的size为0（0表示无限制）
+	if size < zoneSize {
+		zoneSize = size
+	}
 
 	// 按zoneSize与size创建二维缓存，存放的是LRU缓存实例
 	lruSize := size / zoneSize
